@@ -276,7 +276,7 @@ def alphabet(tier):
     good = [f["F2"], f["F19"], f["Fmsm"], items.frame_item("Ftext259", ptext),
             items.frame_item("F300", items.unknown_payload(300, 4006)),
             items.frame_item("F1023", items.unknown_payload(1023, 4007)),
-            f["Fnested"], f["Fsync"],
+            f["Fnested"], f["Fsync"], f["Fcrc0d0a"],
             items.frame_item("Fnmea", b"\xfa\x20$GNGGA,1*00\r\n\xb5\x62\x01")]
     out = []
     for g in good:
